@@ -341,4 +341,116 @@ theorem get_rs_self_int_eq (F : Py.Fld K) (rmax : K) (sstep : Option K) (k : Int
       cases h : Py.Sh.arange s rmax s <;>
         simp [sholl_get_rs_self_int, sholl_get_rs_self_int.body, sholl_get_rs_int, sholl_get_rs_int.body, Py.seq, Py.skip, Py.bind, Py.finish, h1, h]
 
+/-! ## the front end: `PopulationFeatureExtractor._get_impl` -/
+
+/-- the longest value vector -/
+def maxLen {α : Type} (vals : List (List α)) : Nat := vals.foldl (fun a v => max a v.length) 0
+
+theorem foldl_max_int {α : Type} : ∀ (l : List (List α)) (n : Nat),
+    (l.map fun v => (v.length : Int)).foldl (fun a b => if a < b then b else a) (n : Int) = ((l.foldl (fun a v => max a v.length) n : Nat) : Int) := by
+  intro l
+  induction l with
+  | nil => intro n; rfl
+  | cons x xs ih =>
+    intro n
+    simp only [List.map_cons, List.foldl_cons]
+    by_cases h : (n : Int) < (x.length : Int)
+    · rw [if_pos h, ih, show max n x.length = x.length by omega]
+    · rw [if_neg h, ih, show max n x.length = n by omega]
+
+theorem maxInts_lens {α : Type} (vals : List (List α)) (hne : vals ≠ []) :
+    Py.Sh.maxInts (vals.map fun v => (v.length : Int)) = some ((maxLen vals : Nat) : Int) := by
+  cases vals with
+  | nil => exact absurd rfl hne
+  | cons x xs =>
+    simp only [List.map_cons, Py.Sh.maxInts, maxLen, List.foldl_cons]
+    rw [foldl_max_int, show max 0 x.length = x.length by omega]
+
+theorem foldl_max_ge {α : Type} : ∀ (l : List (List α)) (n : Nat),
+    n ≤ l.foldl (fun a v => max a v.length) n ∧ ∀ v ∈ l, v.length ≤ l.foldl (fun a v => max a v.length) n := by
+  intro l
+  induction l with
+  | nil => intro n; simp
+  | cons x xs ih =>
+    intro n
+    obtain ⟨h1, h2⟩ := ih (max n x.length)
+    simp only [List.foldl_cons, List.mem_cons]
+    refine ⟨by omega, ?_⟩
+    rintro v (rfl | hv)
+    · omega
+    · exact h2 v hv
+
+theorem maxLen_ge {α : Type} (vals : List (List α)) : ∀ v ∈ vals, v.length ≤ maxLen vals := (foldl_max_ge vals 0).2
+
+/-- `padding1d(m, v)` for `len(v) ≤ m`: `v` followed by zeros up to length `m` -/
+theorem padding1d_eq (m : Nat) (v : List K) (h : v.length ≤ m) :
+    Py.Sh.padding1d (m : Int) v = v ++ List.replicate (m - v.length) (0 : K) := by
+  unfold Py.Sh.padding1d
+  by_cases hge : (v.length : Int) ≥ (m : Int)
+  · have e : v.length = m := by omega
+    rw [if_pos hge]
+    subst e
+    have hneg : ¬ ((v.length : Int) < 0) := by omega
+    simp [Py.slice, Py.sliceBound, hneg]
+  · rw [if_neg hge]; simp
+
+theorem pop_loop1 : ∀ (xs : List (List K)) (v : population_get_impl.V K),
+    ∃ w, Py.forEach population_get_impl.for1 xs v = .next { v with v_c0 := w, c1_ := v.c1_ ++ xs.map fun x => (x.length : Int) } := by
+  intro xs
+  induction xs with
+  | nil => intro v; exact ⟨v.v_c0, by simp [Py.forEach]⟩
+  | cons x xs ih =>
+    intro v
+    obtain ⟨w, hw⟩ := ih { v with v_c0 := x, c1_ := v.c1_ ++ [(x.length : Int)] }
+    exact ⟨w, by simp only [Py.forEach, population_get_impl.for1, Py.len]; rw [hw]; simp⟩
+
+theorem pop_loop2 : ∀ (xs : List (List K)) (v : population_get_impl.V K),
+    ∃ w, Py.forEach population_get_impl.for2 xs v =
+      .next { v with v_c4 := w, c5_ := v.c5_ ++ xs.map fun x => Py.Sh.padding1d v.len_max x } := by
+  intro xs
+  induction xs with
+  | nil => intro v; exact ⟨v.v_c4, by simp [Py.forEach]⟩
+  | cons x xs ih =>
+    intro v
+    obtain ⟨w, hw⟩ := ih { v with v_c4 := x, c5_ := v.c5_ ++ [Py.Sh.padding1d v.len_max x] }
+    exact ⟨w, by simp only [Py.forEach, population_get_impl.for2]; rw [hw]; simp⟩
+
+/-- the rows the front end returns for a population: every tree's vector followed by zeros up to the longest vector -/
+def padRows (vals : List (List K)) : List (List K) := vals.map fun v => v ++ List.replicate (maxLen vals - v.length) (0 : K)
+
+/-- **`PopulationFeatureExtractor._get_impl` as translated**: for EVERY non-empty list of value vectors (vectors of any lengths, empty
+ones included) nothing raises and the result has one row per tree, row `i` = tree `i`'s vector followed by zeros up to the longest
+vector (width 0 when every vector is empty); with no tree at all it raises (`max()` of an empty sequence) -/
+theorem population_refines (vals : List (List K)) :
+    population_get_impl vals = if vals = [] then none else some (padRows vals) := by
+  obtain ⟨w1, h1⟩ := pop_loop1 vals ⟨vals, (default : population_get_impl.V K).len_max, (default : population_get_impl.V K).v, (default : population_get_impl.V K).v_c0, (default : population_get_impl.V K).v_c4, [], (default : population_get_impl.V K).c5_⟩
+  dsimp only at h1
+  by_cases hne : vals = []
+  · subst hne
+    simp [population_get_impl, population_get_impl.body, Py.seq, Py.bindS, Py.forEach, Py.Sh.maxInts, Py.bind, Py.finish]
+  · rw [if_neg hne]
+    obtain ⟨w2, h2⟩ := pop_loop2 vals ⟨vals, ((maxLen vals : Nat) : Int), (default : population_get_impl.V K).v, w1, (default : population_get_impl.V K).v_c4, vals.map (fun x => (x.length : Int)), []⟩
+    dsimp only at h2
+    have hrows : (vals.map fun x => Py.Sh.padding1d ((maxLen vals : Nat) : Int) x) = padRows vals :=
+      List.map_congr_left fun v hv => padding1d_eq _ _ (maxLen_ge vals v hv)
+    have hstack : Py.Sh.stackRows (padRows vals) = some (padRows vals) := by
+      cases hv : vals with
+      | nil => exact absurd hv hne
+      | cons x xs =>
+        have hlen : ∀ r ∈ padRows (x :: xs), r.length = maxLen (x :: xs) := by
+          intro r hr
+          simp only [padRows, List.mem_map] at hr
+          obtain ⟨v, hv', rfl⟩ := hr
+          have := maxLen_ge (x :: xs) v hv'
+          simp; omega
+        have hx := hlen _ (List.mem_map_of_mem (f := fun v => v ++ List.replicate (maxLen (x :: xs) - v.length) (0 : K)) List.mem_cons_self)
+        simp only [padRows, List.map_cons, Py.Sh.stackRows] at hx ⊢
+        rw [if_pos]
+        simp only [List.all_eq_true, decide_eq_true_eq]
+        intro r hr
+        rw [hx]
+        exact hlen r (by simp only [padRows, List.map_cons]; exact List.mem_cons_of_mem _ hr)
+    simp only [population_get_impl, population_get_impl.body, Py.seq, Py.bindS, h1, List.nil_append, maxInts_lens vals hne, Py.bind,
+      h2, hrows, hstack, Py.finish, Option.map_some]
+
 end RefineSholl
